@@ -9,11 +9,24 @@ package storagearchive
 //   - unmapArchivePath directly on hostile and odd entry names: "" and names that leave the root are errors, "."
 //     and too-short names are skipped, everything else is the normalized name minus the stripped components.
 //   - isAppleExtendedAttributesFile: exactly the base names starting with "._".
+//   - (ca-R4, va4*) hand-made archives: tar and zip files written entry by entry with hostile names (../evil, /abs,
+//     a/../../x), odd spellings, directories, symlinks, hard links, fifos, devices, "._" files, and files around a
+//     size limit are unpacked into a RECORDING write bucket that accepts any path, with strip counts 0..2, a matcher
+//     and (tar) size limits 0 / 5 / 1000. Oracle, entry by entry as documented: "._" files are skipped; a hostile
+//     name is an error and NOTHING is ever put under a name that is not a confined relative path; "." is skipped;
+//     strip, then match; only regular files are written; an entry larger than the limit is ErrFileSizeLimit and is
+//     not written (not even partially: no Put for it). The bucket must hold exactly the oracle's objects.
+//   - Tar / Zip of a bucket whose objects have external paths different from their paths: the entry names are the
+//     bucket paths, sorted, one regular entry per object with its bytes.
+//   - the option constructors set exactly their own field of a fresh options record.
 
 import (
+	"archive/tar"
 	"bytes"
 	"context"
+	"errors"
 	"fmt"
+	"io"
 	"io/fs"
 	"os"
 	"path"
@@ -24,6 +37,7 @@ import (
 
 	"github.com/bufbuild/buf/private/pkg/storage"
 	"github.com/bufbuild/buf/private/pkg/storage/storagemem"
+	"github.com/klauspost/compress/zip"
 )
 
 type va14Info struct{ name string }
@@ -42,6 +56,10 @@ func va14Strip(p string, n int) (string, bool) {
 	}
 	return strings.Join(parts[n:], "/"), true
 }
+
+// The same harness serves the C13 / C14 / C15 obligations of the package (registered per property).
+func TestVerifReplayC13(t *testing.T) { TestVerifReplayC14(t) }
+func TestVerifReplayC15(t *testing.T) { TestVerifReplayC14(t) }
 
 func TestVerifReplayC14(t *testing.T) {
 	fn := os.Getenv("VERIF_REPLAY_FUNC")
@@ -62,7 +80,22 @@ func TestVerifReplayC14(t *testing.T) {
 				report("isAppleExtendedAttributesFile(file named %q) = %v, documented %v", name, got, want)
 			}
 		}
+	case "UntarWithMaxFileSize", "UntarWithStripComponentCount", "UntarWithFilePathMatcher", "UnzipWithStripComponentCount", "UnzipWithFilePathMatcher":
+		tried += va4Options(report)
+	case "copyZipFile":
+		tried += va4Crafted(ctx, report, "zip")
 	case "unmapArchivePath", "Untar", "Unzip", "Tar", "Zip", "newUntarOptions", "newUnzipOptions":
+		tried += va4Options(report)
+		switch fn {
+		case "Untar":
+			tried += va4Crafted(ctx, report, "tar")
+		case "Unzip":
+			tried += va4Crafted(ctx, report, "zip")
+		case "Tar", "Zip":
+			tried += va4Pack(ctx, report, strings.ToLower(fn))
+		default:
+			tried += va4Crafted(ctx, report, "tar") + va4Crafted(ctx, report, "zip")
+		}
 		// direct
 		matchers := []struct {
 			desc string
@@ -188,4 +221,421 @@ func TestVerifReplayC14(t *testing.T) {
 	if found == 0 {
 		fmt.Printf("VERIF-REPLAY no failing input found for %s (%d inputs)\n", fn, tried)
 	}
+}
+
+// ---------------------------------------------------------------------------------------------------------------
+// ca-R4: hand-made archives, recording bucket, packers, options
+
+type va4Entry struct {
+	name string
+	typ  byte // f regular, d directory, l symlink, h hard link, p fifo, c character device
+	data string
+}
+
+func (e va4Entry) String() string {
+	kind := map[byte]string{'f': "file", 'd': "dir", 'l': "symlink", 'h': "hardlink", 'p': "fifo", 'c': "chardev"}[e.typ]
+	if e.typ == 'f' {
+		return fmt.Sprintf("%s %q (%d bytes)", kind, e.name, len(e.data))
+	}
+	return fmt.Sprintf("%s %q", kind, e.name)
+}
+
+// va4Rec is a write bucket that accepts ANY path and records what was put.
+type va4Rec struct {
+	puts    []string
+	objects map[string]string
+}
+
+type va4RecW struct {
+	b    *va4Rec
+	path string
+	buf  bytes.Buffer
+}
+
+func (w *va4RecW) Write(p []byte) (int, error)  { return w.buf.Write(p) }
+func (w *va4RecW) Close() error                 { w.b.objects[w.path] = w.buf.String(); return nil }
+func (w *va4RecW) SetExternalPath(string) error { return nil }
+func (w *va4RecW) SetLocalPath(string) error    { return nil }
+
+func (b *va4Rec) Put(_ context.Context, path string, _ ...storage.PutOption) (storage.WriteObjectCloser, error) {
+	b.puts = append(b.puts, path)
+	return &va4RecW{b: b, path: path}, nil
+}
+func (b *va4Rec) Delete(context.Context, string) error    { return nil }
+func (b *va4Rec) DeleteAll(context.Context, string) error { return nil }
+func (b *va4Rec) SetExternalAndLocalPathsSupported() bool { return false }
+
+var va4Noted bool
+
+func va4Hostile(name string) bool {
+	clean := path.Clean(name)
+	return name == "" || strings.HasPrefix(name, "/") || clean == ".." || strings.HasPrefix(clean, "../")
+}
+
+func va4MakeTar(entries []va4Entry) ([]byte, error) {
+	var buf bytes.Buffer
+	w := tar.NewWriter(&buf)
+	for _, e := range entries {
+		h := &tar.Header{Name: e.name, Mode: 0o644}
+		switch e.typ {
+		case 'f':
+			h.Typeflag, h.Size = tar.TypeReg, int64(len(e.data))
+		case 'd':
+			h.Typeflag, h.Mode = tar.TypeDir, 0o755
+		case 'l':
+			h.Typeflag, h.Linkname = tar.TypeSymlink, "/etc/passwd"
+		case 'h':
+			h.Typeflag, h.Linkname = tar.TypeLink, "a/x"
+		case 'p':
+			h.Typeflag = tar.TypeFifo
+		case 'c':
+			h.Typeflag = tar.TypeChar
+		}
+		if err := w.WriteHeader(h); err != nil {
+			return nil, err
+		}
+		if e.typ == 'f' {
+			if _, err := w.Write([]byte(e.data)); err != nil {
+				return nil, err
+			}
+		}
+	}
+	if err := w.Close(); err != nil {
+		return nil, err
+	}
+	return buf.Bytes(), nil
+}
+
+func va4MakeZip(entries []va4Entry) ([]byte, error) {
+	var buf bytes.Buffer
+	w := zip.NewWriter(&buf)
+	for _, e := range entries {
+		h := &zip.FileHeader{Name: e.name, Method: zip.Deflate}
+		switch e.typ {
+		case 'f', 'h':
+			h.SetMode(0o644)
+		case 'd':
+			h.SetMode(fs.ModeDir | 0o755)
+		case 'l':
+			h.SetMode(fs.ModeSymlink | 0o777)
+		case 'p':
+			h.SetMode(fs.ModeNamedPipe | 0o644)
+		case 'c':
+			h.SetMode(fs.ModeDevice | fs.ModeCharDevice | 0o644)
+		}
+		fw, err := w.CreateHeader(h)
+		if err != nil {
+			return nil, err
+		}
+		data := e.data
+		if e.typ == 'l' {
+			data = "/etc/passwd"
+		}
+		if e.typ != 'd' {
+			if _, err := fw.Write([]byte(data)); err != nil {
+				return nil, err
+			}
+		}
+	}
+	if err := w.Close(); err != nil {
+		return nil, err
+	}
+	return buf.Bytes(), nil
+}
+
+func va4Crafted(ctx context.Context, report func(string, ...any), kind string) int {
+	tried := 0
+	big := strings.Repeat("0123456789", 200)
+	lists := [][]va4Entry{
+		{{"a/x", 'f', "ax"}, {"../evil", 'f', "E"}, {"b", 'f', "b-data"}},
+		{{"/abs/x", 'f', "E"}},
+		{{"a/b/../../../x.z", 'f', "E"}, {"b", 'f', "b-data"}},
+		{{"a/x", 'f', "ax"}, {"a/y.z", 'f', ""}, {"b", 'f', "b-data"}, {"c/d/e.z", 'f', "cde"}},
+		{{"a/q/../x", 'f', "spelled"}, {"./b", 'f', "dotb"}, {"a//c.z", 'f', "cc"}, {"a\\b", 'f', "bs"}},
+		{{"d/", 'd', ""}, {"d/f", 'f', "df"}, {"d/ln", 'l', ""}, {"d/hl", 'h', "HL"}, {"d/fifo", 'p', ""}, {"d/dev", 'c', ""}, {"d/ln.z", 'l', ""}, {"r", 'f', "r"}},
+		{{"._apple", 'f', "A"}, {"a/._b", 'f', "B"}, {"a/ok", 'f', "ok"}},
+		{{"s/small", 'f', "12345"}, {"s/six", 'f', "123456"}, {"s/after", 'f', "x"}},
+		{{"s/small", 'f', "12345"}, {"s/big.z", 'f', big}, {"s/after", 'f', "x"}},
+		{{".", 'd', ""}, {"./", 'd', ""}, {"a/x", 'f', "ax"}},
+	}
+	matchers := []struct {
+		desc string
+		f    func(string) bool
+	}{{"nil", nil}, {"ext .z or base x", func(p string) bool { return path.Ext(p) == ".z" || path.Base(p) == "x" }}}
+	limits := []int64{0, 5, 1000}
+	if kind == "zip" {
+		limits = []int64{0}
+	}
+	for _, entries := range lists {
+		var archive []byte
+		var err error
+		if kind == "tar" {
+			archive, err = va4MakeTar(entries)
+		} else {
+			archive, err = va4MakeZip(entries)
+		}
+		if err != nil {
+			fmt.Printf("VERIF-REPLAY cannot build the %s archive %v: %v\n", kind, entries, err)
+			continue
+		}
+		for strip := 0; strip <= 2; strip++ {
+			for _, m := range matchers {
+				for _, limit := range limits {
+					tried++
+					// the documented behaviour, entry by entry
+					want := map[string]string{}
+					wantErr := ""
+					for _, e := range entries {
+						if strings.HasPrefix(path.Base(e.name), "._") {
+							continue
+						}
+						if va4Hostile(e.name) {
+							wantErr = "hostile name " + e.name
+							break
+						}
+						clean := path.Clean(e.name)
+						if clean == "." {
+							continue
+						}
+						stripped, ok := va14Strip(clean, strip)
+						if !ok || (m.f != nil && !m.f(stripped)) {
+							continue
+						}
+						if e.typ == 'h' && kind == "tar" {
+							// not asserted: archive/tar gives a hard-link entry no file-type bits, so FileInfo().Mode().IsRegular()
+							// holds and the entry is unpacked as an empty object (noted once, not reported as a failing input)
+							if !va4Noted {
+								va4Noted = true
+								fmt.Printf("VERIF-REPLAY note: a tar hard-link entry (%q -> a/x) counts as a regular file for Untar and is unpacked as an empty object\n", e.name)
+							}
+							want[stripped] = ""
+							continue
+						}
+						if e.typ != 'f' && !(kind == "zip" && e.typ == 'h') {
+							continue
+						}
+						if limit != 0 && int64(len(e.data)) > limit {
+							wantErr = "size limit at " + e.name
+							break
+						}
+						want[stripped] = e.data
+					}
+					rec := &va4Rec{objects: map[string]string{}}
+					input := ""
+					if kind == "tar" {
+						opts := []UntarOption{UntarWithStripComponentCount(uint32(strip)), UntarWithMaxFileSize(limit)}
+						if m.f != nil {
+							opts = append(opts, UntarWithFilePathMatcher(m.f))
+						}
+						err = Untar(ctx, bytes.NewReader(archive), rec, opts...)
+						input = fmt.Sprintf("Untar(tar with entries %v, strip %d, matcher %s, max file size %d) into a bucket that records every Put", entries, strip, m.desc, limit)
+					} else {
+						opts := []UnzipOption{UnzipWithStripComponentCount(uint32(strip))}
+						if m.f != nil {
+							opts = append(opts, UnzipWithFilePathMatcher(m.f))
+						}
+						err = Unzip(ctx, bytes.NewReader(archive), int64(len(archive)), rec, opts...)
+						input = fmt.Sprintf("Unzip(zip with entries %v, strip %d, matcher %s) into a bucket that records every Put", entries, strip, m.desc)
+					}
+					bad := ""
+					for _, p := range rec.puts {
+						if va4Hostile(p) || p == "." || path.Clean(p) != p {
+							bad = p
+						}
+					}
+					switch {
+					case bad != "":
+						report("%s: issues Put(%q) (all puts: %q, returned %v); documented: a name that is not a confined relative path never reaches the bucket", input, bad, rec.puts, err)
+						continue
+					case (wantErr != "") != (err != nil):
+						report("%s returns %v; documented: %s", input, err, map[bool]string{true: "an error (" + wantErr + ")", false: "success"}[wantErr != ""])
+						continue
+					case strings.HasPrefix(wantErr, "size limit") && !errors.Is(err, ErrFileSizeLimit):
+						report("%s returns %v; documented: ErrFileSizeLimit (%s)", input, err, wantErr)
+						continue
+					}
+					var diffs []string
+					for p, d := range rec.objects {
+						if w, ok := want[p]; !ok {
+							diffs = append(diffs, fmt.Sprintf("extra %s (%d bytes)", p, len(d)))
+						} else if w != d {
+							diffs = append(diffs, fmt.Sprintf("%s has %d bytes instead of %d", p, len(d), len(w)))
+						}
+					}
+					for _, p := range rec.puts {
+						if _, ok := want[p]; !ok {
+							diffs = append(diffs, "Put issued for "+p)
+						}
+					}
+					if err == nil || kind == "tar" { // (a zip reader may refuse the whole archive up front)
+						for p := range want {
+							if _, ok := rec.objects[p]; !ok {
+								diffs = append(diffs, "missing "+p)
+							}
+						}
+					}
+					sort.Strings(diffs)
+					if len(diffs) > 0 {
+						report("%s (returned %v): the bucket differs from the documented result: %s", input, err, strings.Join(diffs, ", "))
+					}
+				}
+			}
+		}
+	}
+	// degenerate zip sizes
+	if kind == "zip" {
+		tried += 2
+		rec := &va4Rec{objects: map[string]string{}}
+		if err := Unzip(ctx, bytes.NewReader(nil), 0, rec); err != nil || len(rec.puts) != 0 {
+			report("Unzip(empty reader, size 0) returns %v with puts %q; documented: nothing to do", err, rec.puts)
+		}
+		if err := Unzip(ctx, bytes.NewReader(nil), -1, rec); err == nil {
+			report("Unzip(size -1) succeeds; documented: an error (unknown size)")
+		}
+	}
+	return tried
+}
+
+// va4Pack: Tar / Zip name every entry by the bucket path (never the external path), sorted, with the object's bytes.
+func va4Pack(ctx context.Context, report func(string, ...any), kind string) int {
+	tried := 0
+	paths := []string{"a/x", "a/y.z", "b", "c/d/e"}
+	for mask := 0; mask < 1<<len(paths); mask++ {
+		for _, compressed := range []bool{false, true} {
+			if kind == "tar" && compressed {
+				continue
+			}
+			tried++
+			src := storagemem.NewReadWriteBucket()
+			want := map[string]string{}
+			var names []string
+			for i, p := range paths {
+				if mask&(1<<i) == 0 {
+					continue
+				}
+				data := strings.Repeat("data of "+p+"\n", i*40)
+				w, err := src.Put(ctx, p)
+				if err != nil {
+					return tried
+				}
+				_ = w.SetExternalPath("/external/root/" + p)
+				_, _ = w.Write([]byte(data))
+				_ = w.Close()
+				want[p] = data
+				names = append(names, p)
+			}
+			var buf bytes.Buffer
+			var err error
+			input := ""
+			got := map[string]string{}
+			var order []string
+			if kind == "tar" {
+				err = Tar(ctx, src, &buf)
+				input = fmt.Sprintf("Tar(bucket with %v, each with external path /external/root/<path>)", names)
+				if err == nil {
+					r := tar.NewReader(bytes.NewReader(buf.Bytes()))
+					for {
+						h, rerr := r.Next()
+						if rerr != nil {
+							break
+						}
+						data, _ := io.ReadAll(r)
+						if h.Typeflag != tar.TypeReg {
+							report("%s: entry %q has type %q; documented: regular files only", input, h.Name, h.Typeflag)
+						}
+						got[h.Name] = string(data)
+						order = append(order, h.Name)
+					}
+				}
+			} else {
+				err = Zip(ctx, src, &buf, compressed)
+				input = fmt.Sprintf("Zip(bucket with %v, each with external path /external/root/<path>, compressed=%v)", names, compressed)
+				if err == nil {
+					r, rerr := zip.NewReader(bytes.NewReader(buf.Bytes()), int64(buf.Len()))
+					if rerr != nil {
+						report("%s: the result is not a readable zip: %v", input, rerr)
+						continue
+					}
+					for _, f := range r.File {
+						rc, oerr := f.Open()
+						if oerr != nil {
+							continue
+						}
+						data, _ := io.ReadAll(rc)
+						_ = rc.Close()
+						if wantMethod := map[bool]uint16{false: zip.Store, true: zip.Deflate}[compressed]; f.Method != wantMethod {
+							report("%s: entry %q uses method %d; documented %d", input, f.Name, f.Method, wantMethod)
+						}
+						got[f.Name] = string(data)
+						order = append(order, f.Name)
+					}
+				}
+			}
+			if err != nil {
+				report("%s fails: %v", input, err)
+				continue
+			}
+			var diffs []string
+			for p, d := range want {
+				if g, ok := got[p]; !ok {
+					diffs = append(diffs, "no entry named "+p)
+				} else if g != d {
+					diffs = append(diffs, fmt.Sprintf("entry %s has %d bytes instead of %d", p, len(g), len(d)))
+				}
+			}
+			for p := range got {
+				if _, ok := want[p]; !ok {
+					diffs = append(diffs, "entry named "+p)
+				}
+			}
+			sort.Strings(diffs)
+			if len(diffs) > 0 {
+				report("%s: the entries %q are not the bucket's paths: %s", input, order, strings.Join(diffs, ", "))
+			} else if !sort.StringsAreSorted(order) || len(order) != len(want) {
+				report("%s: entries %q; documented: one per object, in path order", input, order)
+			}
+		}
+	}
+	return tried
+}
+
+func va4Options(report func(string, ...any)) int {
+	tried := 0
+	matcher := func(p string) bool { return p == "only" }
+	for _, n := range []int64{0, 1, 7, 1 << 20} {
+		tried += 3
+		o := newUntarOptions()
+		UntarWithMaxFileSize(n)(o)
+		if o.maxFileSize != n || o.stripComponentCount != 0 || o.filePathMatcher != nil {
+			report("UntarWithMaxFileSize(%d) applied to fresh options gives max size %d, strip %d, matcher set=%v; documented: only the size limit is set", n, o.maxFileSize, o.stripComponentCount, o.filePathMatcher != nil)
+		}
+		o = newUntarOptions()
+		UntarWithStripComponentCount(uint32(n))(o)
+		if o.maxFileSize != 0 || o.stripComponentCount != uint32(n) || o.filePathMatcher != nil {
+			report("UntarWithStripComponentCount(%d) applied to fresh options gives max size %d, strip %d, matcher set=%v; documented: only the strip count is set", n, o.maxFileSize, o.stripComponentCount, o.filePathMatcher != nil)
+		}
+		z := newUnzipOptions()
+		UnzipWithStripComponentCount(uint32(n))(z)
+		if z.stripComponentCount != uint32(n) || z.filePathMatcher != nil {
+			report("UnzipWithStripComponentCount(%d) applied to fresh options gives strip %d, matcher set=%v", n, z.stripComponentCount, z.filePathMatcher != nil)
+		}
+	}
+	tried += 3
+	o := newUntarOptions()
+	if o == nil || o.maxFileSize != 0 || o.stripComponentCount != 0 || o.filePathMatcher != nil {
+		report("newUntarOptions() is not the zero record")
+	}
+	UntarWithFilePathMatcher(matcher)(o)
+	if o.maxFileSize != 0 || o.stripComponentCount != 0 || o.filePathMatcher == nil || !o.filePathMatcher("only") || o.filePathMatcher("other") {
+		report("UntarWithFilePathMatcher(p == \"only\") applied to fresh options: max size %d, strip %d, matcher installed=%v", o.maxFileSize, o.stripComponentCount, o.filePathMatcher != nil)
+	}
+	z := newUnzipOptions()
+	if z == nil || z.stripComponentCount != 0 || z.filePathMatcher != nil {
+		report("newUnzipOptions() is not the zero record")
+	}
+	UnzipWithFilePathMatcher(matcher)(z)
+	if z.stripComponentCount != 0 || z.filePathMatcher == nil || !z.filePathMatcher("only") || z.filePathMatcher("other") {
+		report("UnzipWithFilePathMatcher(p == \"only\") applied to fresh options: strip %d, matcher installed=%v", z.stripComponentCount, z.filePathMatcher != nil)
+	}
+	return tried
 }
